@@ -10,7 +10,7 @@ from vlib import renv
 
 PROPERTY = "C14"
 RULE = ("enumerated upgrade histories {USR2 then TERM old | QUIT old | TERM new | QUIT new | INT old | INT new | second USR2 while pending | "
-        "USR2, TERM old, USR2 on the promoted master, TERM first-new | USR2, TERM new, USR2 again} x bind {tcp, unix} x worker class "
+        "USR2, TERM old, USR2 on the promoted master, TERM first-new | USR2, TERM new, USR2 again | daemon mode: USR2, WINCH old, HUP old, TERM new} x bind {tcp, unix} x worker class "
         "{sync, gthread} with seeded sub-second jitter, on two (or three) real masters started from the working tree under a "
         "connect-loop client. Oracle: no connect is ever refused; after USR2 the configured pid file names the old master and '<pidfile>.2' "
         "the new one; once the old master is gone the configured name holds the new pid within 3 s and '.2' is absent; if the new one goes "
@@ -20,11 +20,12 @@ RULE = ("enumerated upgrade histories {USR2 then TERM old | QUIT old | TERM new 
 ASSUMPTIONS = [
     "masters are identified through the pid files and /proc; the new master is the process named by '<pidfile>.2'",
     "wall-clock bounds: 12 s for a new master to come up, 3 s (+1 s slack) for the pid-file promotion",
-    "the daemon-mode rollback history (WINCH/HUP on the old master) is exercised in the thorough tier only",
+    "the daemon-mode rollback history (USR2, WINCH old, HUP old, TERM new) runs a daemonised master found through its pid file",
 ]
 BUDGET = {"quick": (16, 0), "thorough": (16, 0)}
 
-HISTORIES = ["term-old", "quit-old", "term-new", "quit-new", "int-old", "int-new", "usr2-twice", "upgrade-twice", "rollback-then-upgrade"]
+HISTORIES = ["term-old", "quit-old", "term-new", "quit-new", "int-old", "int-new", "usr2-twice", "upgrade-twice", "rollback-then-upgrade",
+             "daemon-rollback"]
 
 
 def extra_cases(tier, seed, shard, nshards):
@@ -87,7 +88,8 @@ def wait_for(cond, limit):
 def run_case(case):
     h, bind, kind = case["history"], case["bind"], case["kind"]
     classes = ["history:" + h, "bind:" + bind, "kind:" + kind]
-    srv = renv.Server(kind=kind, workers=2, bind=bind, graceful=3, timeout=30, threads=2 if kind == "gthread" else None)
+    srv = renv.Server(kind=kind, workers=2, bind=bind, graceful=3, timeout=30, threads=2 if kind == "gthread" else None,
+                      daemon=(h == "daemon-rollback"))
     vio = []
 
     def V(clause, sig, observed=None, expected=None):
@@ -183,6 +185,24 @@ def run_case(case):
                     kill_and_wait(new, signal.SIGTERM, False)
                     expect_promoted(third, new, "second-upgrade")
                     expect_serving("second-upgrade")
+            elif h == "daemon-rollback":
+                # documented rollback recipe (daemon mode): WINCH the old master (its workers stop), HUP it (they come back),
+                # then TERM the new master
+                os.kill(old, signal.SIGWINCH)
+                if not wait_for(lambda: len(renv.children(old)) == 1 and renv.children(old) == [new], 8):
+                    V("winch", "old-master-kept-workers-after-winch", {"children": renv.children(old), "new": new}, "only the new master as child")
+                expect_serving("winch")
+                os.kill(old, signal.SIGHUP)
+                if not wait_for(lambda: len([p for p in renv.children(old) if p != new]) == 2, 8):
+                    V("rollback", "old-master-workers-not-restored-by-hup", {"children": renv.children(old)}, "2 workers again")
+                kill_and_wait(new, signal.SIGTERM, False)
+                ok = wait_for(lambda: read_pid(pf) == old and not os.path.exists(pf2), 4)
+                if not ok:
+                    V("rollback", "pidfiles-wrong-after-new-master-left", {"pidfile": read_pid(pf), "pidfile2": read_pid(pf2)},
+                      {"pidfile": old, "pidfile2": None})
+                expect_serving(h)
+                if not wait_for(lambda: len(renv.children(old)) == 2, 4):
+                    V("rollback", "old-master-worker-count-changed", {"children": renv.children(old)}, 2)
             elif h == "rollback-then-upgrade":
                 kill_and_wait(new, signal.SIGTERM, False)
                 wait_for(lambda: not os.path.exists(pf2), 4)
